@@ -375,11 +375,21 @@ pub fn run(o: &Opts) -> Report {
                 let wb = if n <= 2 { 3 } else if n <= 4 { 2 } else if n <= 16 { 1 } else { 0 };
                 let pw = (w + (1 << wb) - 1) >> wb;
                 // the packed index image occupies the first pw*h pixels of the buffer
-                let mut im = vec![0u8; (w * h * 4) as usize];
+                // (the rest holds stale bytes: the transform must overwrite all of it)
+                let mut im = rng.bytes((w * h * 4) as usize);
                 let packed: Vec<u8> = (0..pw * h).flat_map(|_| [0, rng.byte(), 0, 255]).collect();
                 im[..packed.len()].copy_from_slice(&packed);
                 let inp = im.clone();
                 let r = catch(|| hk::inv_index(&mut im, w as u16, h as u16, n, &table));
+                // tie 2 for the in-place model (CIdx.apply, for which C01.color_indexing_in_place is proved)
+                if let Ok(out) = &r.as_ref().map(|()| im.clone()) {
+                    let mline = format!("cidx {w} {h} {} {}", hex(&table), hex(&inp));
+                    let m = drv.ask(&mline);
+                    rep.hit("transform_index_in_place_model");
+                    if hex(out) != m {
+                        rep.disagree(Disagreement { case: mline, got: hex(out), expected: m, class: "correspondence", obligation: "tie2: apply_color_indexing_transform = CIdx.apply (in-place model)".into(), detail: String::new() });
+                    }
+                }
                 ("index", format!("vp8ltransform index 0 {w} {h} {} {}", hex(&table), hex(&inp[..packed.len()])), r.map(|()| im))
             }
         };
